@@ -145,11 +145,11 @@ impl Check for C18 {
         };
         prop_loop(ctx, rec, "gen", strategy(), ctx.share(total), judge);
     }
-    fn replay(&self, _ctx: &Ctx, _sub: &str, case: &Value) -> Verdict {
+    fn replay(&self, ctx: &Ctx, _sub: &str, case: &Value) -> Verdict {
         match serde_json::from_value::<Case>(case.clone()) {
             Ok(c) => {
                 let mut last = Verdict::Pass;
-                for _ in 0..3 {
+                for _ in 0..ctx.replay_attempts {
                     last = judge(&c, &mut Rec::default());
                     if matches!(last, Verdict::Fail(..)) {
                         return last;
